@@ -19,8 +19,21 @@ class ClassMarker(Obj):
         super().__init__(f"class {cls.name}")
         self.cls = cls
 
+    def abs_getattr(self, name, ev, node):
+        proj = PROJECT[0]
+        expr = proj.lookup_class_attr(self.cls, proj.unmangle(name)) if proj is not None else None
+        if expr is None:
+            raise Unsupported(f"attribute {name} of class {self.cls.name}", node)
+        sub = Evaluator({}, ev.funcs)
+        sub.module = self.cls.module
+        return sub.ev(expr)
+
+
+PROJECT = [None]
+
 
 def install(proj) -> None:
+    PROJECT[0] = proj
     classes = {}
     for c in proj.all_classes():
         classes.setdefault(c.name, []).append(c)
@@ -84,6 +97,54 @@ def install(proj) -> None:
             if r and r[0] == "func":
                 args, kw = ev._call_args(node)
                 return True, call(ev, r[1], args, kw)
+            if r and r[0] == "external":
+                return external(ev, node, r[1])
+        if len(parts) == 2 and parts[0] not in ev.env and ev.module is not None:
+            # np.isclose(...) with `import numpy as np`
+            target = ev.module.imports.get(parts[0])
+            if target and not target.startswith(proj.package):
+                return external(ev, node, f"{target}.{parts[1]}")
         return False, None
 
+    ext = {}
+
+    def external(ev: Evaluator, node: ast.Call, dotted_name: str) -> Tuple[bool, Any]:
+        """numpy / math / itertools ... functions the rule did not script: the shared model of engines/stdlib.py."""
+        if not ext:
+            from .instances import Runtime
+            from .stdlib import install as install_std
+            ext["table"] = install_std(Runtime(proj)).externals
+        h = ext["table"].get(dotted_name)
+        if h is None or not hasattr(h, "abs_call"):
+            return False, None
+        args, kw = ev._call_args(node)
+        return True, h.abs_call(args, kw, ev, node)
+
     abseval.FALLBACK_RESOLVER = resolver
+    values = {}
+
+    def names(ev: Evaluator, name: str, node) -> Tuple[bool, Any]:
+        """Module-level constants of the module the running body belongs to (or imported from another package module);
+        a project class referred to by name is a ClassMarker (its attributes resolve through class_attr)."""
+        mod = ev.module
+        if mod is None:
+            return False, None
+        try:
+            r = proj.resolve_in_module(mod, name)
+        except Exception:
+            return False, None
+        if not r:
+            return False, None
+        if r[0] == "global":
+            m, nm = r[1]
+            key = (m.name, nm)
+            if key not in values:
+                sub = Evaluator({}, ev.funcs)
+                sub.module = m
+                values[key] = sub.ev(m.globals[nm])
+            return True, values[key]
+        if r[0] == "class":
+            return True, ClassMarker(r[1])
+        return False, None
+
+    abseval.FALLBACK_NAMES = names
